@@ -150,19 +150,20 @@ Definition rfc_exp (t : list N) : bool :=
     ((c =? 101) || (c =? 69)) &&
     all_digits1 (match r with s :: r' => if (s =? 43) || (s =? 45) then r' else r | [] => r end)
   end.
+Definition is_nil (t : list N) : bool := match t with [] => true | _ :: _ => false end.
 Definition rfc_frac_exp (t : list N) : bool :=
   match t with
-  | 46 :: r => let (d, s) := span_digits r in negb (match d with [] => true | _ => false end) && rfc_exp s
-  | _ => rfc_exp t
+  | c :: r =>
+    if c =? 46 then (let (d, s) := span_digits r in negb (is_nil d) && rfc_exp s)   (* frac [exp] *)
+    else rfc_exp t
+  | [] => true
   end.
 Definition rfc_number (t : list N) : bool :=
-  let t := match t with 45 :: r => r | _ => t end in
+  let t := match t with c :: r => if c =? 45 then r else t | [] => t end in       (* [ minus ] *)
   let (d, s) := span_digits t in
   match d with
   | [] => false
-  | [_] => rfc_frac_exp s
-  | 48 :: _ => false                                  (* no leading zero *)
-  | _ => rfc_frac_exp s
+  | c :: d' => (negb (c =? 48) || is_nil d') && rfc_frac_exp s                       (* int: 0 / 1-9 digits *)
   end.
 
 Fixpoint rfc_valid (v : jvalue) : bool :=
